@@ -212,6 +212,14 @@ impl Error {
 		syn::Error::new(span, "duplicate trait with the same bound")
 	}
 
+	/// Duplicate trait with different bounds.
+	pub fn trait_duplicate_bounds(span: Span) -> syn::Error {
+		syn::Error::new(
+			span,
+			"duplicate trait, implementations with different bounds conflict as well",
+		)
+	}
+
 	/// Unknown `repr`.
 	#[cfg(not(feature = "nightly"))]
 	pub fn repr_unknown(span: Span) -> syn::Error {
